@@ -1,6 +1,7 @@
 #!/usr/bin/env python3
-"""Translator: the variant order of `pub enum KeyName` and the bit constants of `KeyMod` in
-src/keys.rs -> coq/theories/Gen/C18Keys.v
+"""Translator: the variant order of `pub enum KeyName`, the bit constants of `KeyMod`, and the literal
+arms of KeyName::from_str and Key::from_str (the parsers' vocabulary) in src/keys.rs
+-> coq/theories/Gen/C18Keys.v
 
 The derived `Ord` of `Key` compares the variant index of the name first; Keys/KeyParse.v
 `name_idx` must therefore list the variants in source order, and the modifier masks used by
@@ -45,17 +46,105 @@ def extract(repo):
     return variants, consts
 
 
+CHAR_ESC = {"n": 10, "t": 9, "r": 13, "0": 0, "\\": 92, "'": 39, '"': 34}
+
+
+def char_code(lit):
+    """the scalar value of a Rust char literal body (between the quotes)"""
+    if len(lit) == 1:
+        return ord(lit)
+    if lit.startswith("\\u{") and lit.endswith("}"):
+        return int(lit[3:-1], 16)
+    if len(lit) == 2 and lit[0] == "\\" and lit[1] in CHAR_ESC:
+        return CHAR_ESC[lit[1]]
+    raise ValueError("char literal not understood: %r" % lit)
+
+
+def match_body(src, impl_header, opener):
+    """text of the `match ... {` that follows `opener` inside the impl starting at `impl_header`"""
+    i = src.find(impl_header)
+    if i < 0:
+        raise ValueError("%r not found in src/keys.rs" % impl_header)
+    j = src.find(opener, i)
+    if j < 0:
+        raise ValueError("%r not found after %r" % (opener, impl_header))
+    return src[j + len(opener):]
+
+
+def literal_arms(body, arm_re, stop_re, what):
+    """the leading run of `"literal" => ...,` arms of a match; every line up to the first arm that binds a
+    name must be a literal arm of the expected shape (or a comment): anything else is a source shape this
+    translator does not understand"""
+    arms = []
+    for line in body.split("\n"):
+        t = line.strip()
+        if not t or t.startswith("//"):
+            continue
+        if stop_re.match(t):
+            return arms
+        m = arm_re.match(t)
+        if not m:
+            raise ValueError("%s: arm not understood: %r" % (what, t))
+        lit = m.group(1)
+        if any(ord(c) > 126 or ord(c) < 32 or c in '"\\' for c in lit):
+            raise ValueError("%s: literal outside printable ASCII: %r" % (what, lit))
+        arms.append(m)
+    raise ValueError("%s: end of the literal arms not found" % what)
+
+
+def extract_parsers(repo, variants, consts):
+    src = open(os.path.join(repo, "src", "keys.rs")).read()
+    # KeyName::from_str:  "literal" => KeyName::Variant,  |  KeyName::Char('c'),  |  KeyName::F(n),
+    body = match_body(src, "impl FromStr for KeyName", "match string.to_lowercase().as_ref() {")
+    arm = re.compile(r'^"([^"]*)"\s*=>\s*KeyName::([A-Za-z0-9]+)(?:\((.*)\))?,$')
+    names = []
+    for m in literal_arms(body, arm, re.compile(r"^[a-z_]+ if "), "KeyName::from_str"):
+        lit, var, payload = m.group(1), m.group(2), m.group(3)
+        if var not in variants:
+            raise ValueError("KeyName::from_str: unknown variant %s" % var)
+        if var == "Char":
+            if not (payload and payload.startswith("'") and payload.endswith("'")):
+                raise ValueError("KeyName::from_str: Char payload not understood: %r" % payload)
+            val = char_code(payload[1:-1])
+        elif var == "F":
+            val = int(payload)
+        elif payload is not None:
+            raise ValueError("KeyName::from_str: unexpected payload for %s" % var)
+        else:
+            val = 0
+        names.append((lit, var, val))
+    # Key::from_str:  "literal" => key_mod |= KeyMod::CONST,
+    body = match_body(src, "impl FromStr for Key {", "match attr.to_lowercase().as_ref() {")
+    arm = re.compile(r'^"([^"]*)"\s*=>\s*key_mod\s*\|=\s*KeyMod::([A-Z]+),$')
+    mods = []
+    known = dict(consts)
+    for m in literal_arms(body, arm, re.compile(r"^[a-z_]+ => "), "Key::from_str"):
+        if m.group(2) not in known:
+            raise ValueError("Key::from_str: unknown KeyMod constant %s" % m.group(2))
+        mods.append((m.group(1), m.group(2)))
+    if not names or not mods:
+        raise ValueError("no literal arms found")
+    return names, mods
+
+
 def pre_coq(ctx):
     try:
         variants, consts = extract(ctx["repo"])
+        names, mods = extract_parsers(ctx["repo"], variants, consts)
     except (OSError, ValueError) as e:
         return 1, "translate/c18keys.py: %s" % e
     s = "(* generated by translate/c18keys.py from src/keys.rs; do not edit *)\n"
     s += "From Coq Require Import List NArith String.\nImport ListNotations.\nLocal Open Scope string_scope.\n"
     s += "Definition keyname_variants : list string := [%s].\n" % "; ".join('"%s"' % v for v in variants)
     s += "Definition keymod_consts : list (string * N) := [%s].\n" % "; ".join('("%s", %s%%N)' % (n, b) for n, b in consts)
+    s += "(* the literal arms of KeyName::from_str, in source order: literal, variant, payload (char code / F index) *)\n"
+    s += "Definition keyname_parse_arms : list (string * (string * N)) := [%s].\n" % "; ".join(
+        '("%s", ("%s", %d%%N))' % a for a in names)
+    s += "(* the literal arms of Key::from_str, in source order: literal, KeyMod constant *)\n"
+    s += "Definition keymod_parse_arms : list (string * string) := [%s].\n" % "; ".join('("%s", "%s")' % a for a in mods)
     changed = write_if_changed(os.path.join(GEN, "C18Keys.v"), s)
-    return 0, "translate/c18keys.py: %d KeyName variants, %d KeyMod constants%s" % (len(variants), len(consts), " (regenerated)" if changed else "")
+    return 0, "translate/c18keys.py: %d KeyName variants, %d KeyMod constants, %d name literals, %d modifier literals%s" % (
+        len(variants), len(consts), len(names), len(mods), " (regenerated)" if changed else "")
 
 
 if __name__ == "__main__":
